@@ -473,6 +473,53 @@ func (s *Sim) ActAbandon(t *rapid.T) bool {
 	s.N.Forget(i)
 	s.L.Abandon(i)
 	s.NAbandon++
+	if rapid.IntRange(0, 3).Draw(t, "abandonAgain") == 0 {
+		// the same event delivered again: nothing is left to remove
+		s.Case.Logf("abandon tx%d again", i)
+		s.update("abandon again", func(ns walletdb.ReadWriteBucket) error {
+			return s.Store.RemoveUnminedTx(ns, s.U.Rec(i, time.Unix(1_600_000_000, 0)))
+		})
+		s.Case.Class("abandon-delivered-twice")
+	}
+	return true
+}
+
+// ActAbandonUnknown: the caller gives up a transaction the store never
+// recorded (and none of whose outputs a recorded transaction spends), e.g. a
+// conflicting version of a recorded one. Nothing changes. (Giving up a
+// transaction the store holds as confirmed is not an event of the statements'
+// domain: RemoveUnminedTx then erases its unconfirmed spenders - noted as an
+// observation in DESIGN.md.)
+func (s *Sim) ActAbandonUnknown(t *rapid.T) bool {
+	var cands []int
+	for i := range s.U.Specs {
+		if s.L.Known[i] != nil {
+			continue
+		}
+		child := false
+		for j, sp := range s.U.Specs {
+			if s.L.Known[j] == nil {
+				continue
+			}
+			for _, in := range sp.Ins {
+				if in.Parent == i {
+					child = true
+				}
+			}
+		}
+		if !child {
+			cands = append(cands, i)
+		}
+	}
+	if len(cands) == 0 {
+		return false
+	}
+	i := rapid.SampledFrom(cands).Draw(t, "abandonUnknown")
+	s.Case.Logf("abandon tx%d, which the store never recorded", i)
+	s.update("abandon (unknown)", func(ns walletdb.ReadWriteBucket) error {
+		return s.Store.RemoveUnminedTx(ns, s.U.Rec(i, time.Unix(1_600_000_000, 0)))
+	})
+	s.Case.Class("abandon-of-a-transaction-never-recorded")
 	return true
 }
 
@@ -533,19 +580,29 @@ func (s *Sim) ActReopen(t *rapid.T) bool {
 // Run executes a generated history, checking the oracles after every step.
 func (s *Sim) Run(t *rapid.T, extra map[string]func(*rapid.T) bool, check func()) {
 	acts := map[string]func(*rapid.T) bool{
-		"announce":  s.ActAnnounce,
-		"mine":      s.ActMine,
-		"advance":   s.ActAdvance,
-		"rollback":  s.ActRollback,
-		"abandon":   s.ActAbandon,
-		"redeliver": s.ActRedeliver,
-		"reopen":    s.ActReopen,
+		"announce":     s.ActAnnounce,
+		"mine":         s.ActMine,
+		"advance":      s.ActAdvance,
+		"rollback":     s.ActRollback,
+		"abandon":      s.ActAbandon,
+		"redeliver":    s.ActRedeliver,
+		"abandonOther": s.ActAbandonUnknown,
+		"reopen":       s.ActReopen,
 	}
 	for k, f := range extra {
 		acts[k] = f
 	}
-	var names []string
+	weights := map[string]int{}
 	for k, w := range s.Cfg.Weights {
+		weights[k] = w
+	}
+	if w, ok := weights["abandon"]; ok && w > 0 {
+		if _, set := weights["abandonOther"]; !set {
+			weights["abandonOther"] = (w + 1) / 2
+		}
+	}
+	var names []string
+	for k, w := range weights {
 		if acts[k] == nil {
 			s.Inconclusive("unknown action %q", k)
 		}
